@@ -125,6 +125,10 @@ def fixed_pool(big: bool) -> list:
             out.append(h)
     # after the originals (the originals are wrapped first): their look-alikes, bare and as children
     out += [TV_2, NT_2, U0_2, list[TV_2], list[NT_2], Un[U0_2, str], tuple[NT_2, ...]]
+    # subscripted hints whose origins are related by subclassing but whose factories differ in ARITY or in the meaning
+    # of their parameters (Counter[K] is a dict[K, int]; ItemsView[K, V] is a Collection of (K, V) pairs)
+    out += [collections.Counter[str], dict[str, bytes], dict[str, int], A.Mapping[str, str], A.ItemsView[str, int], A.Collection[str],
+            A.Collection[tuple[str, int]], A.KeysView[str], A.Generator[int, None, None], A.Iterator[int]]
     return out
 
 
